@@ -31,6 +31,13 @@ class Rec:
     def put(self, p): self.log.append((self.env.now, p))
 
 
+ASSUMPTIONS.append('generator cases: a second DistPacketGenerator with the same flow id (other source name, own draws) runs in the same Environment; '
+                   'the model sees only the first, the oracle demands ids 1, 2, ... of each')
+ASSUMPTIONS.append('pipelines: a port drop counts as "discarded by the documented rule" only if the tail-drop rule of C09, recomputed from the taps '
+                   '(bytes/packets accepted minus forwarded), asks for it; in packet mode the taps cannot see whether the head packet is in transmission, '
+                   'so the one ambiguous occupancy is accepted either way')
+
+
 def gen_case(rng, cid):
     n = rng.randint(0, 12)
     gaps = [rng.choice([0, 0.5, 1, 1, 2, 0.25, round(rng.random() * 3, 3)]) for _ in range(n + 3)]
@@ -223,6 +230,7 @@ class Pipe:
         self.log = []
         self.held = {}            # port name -> [bytes, packets] accepted and not yet forwarded, counted at the taps
         self.badrule = []         # port drops / admissions that are not by the documented tail-drop rule
+        self.nrule = 0
         self.sink = PacketSink(env)
         self.elems = []
         # a chain; optionally a FlowDemux in the middle fanning out to per-flow branches that join at the sink
@@ -286,6 +294,7 @@ class Pipe:
                 # transmission) a refusal needs n >= qlimit - 1 and an admission n <= qlimit - 1; no limit: never refused.
                 hb, hn = self.held[name]
                 q = e.qlimit
+                self.nrule += 1
                 if q is None:
                     bad = dropped
                 elif e.limit_bytes:
@@ -422,6 +431,7 @@ def run(ctx):
         hist['kind:' + c['kind']] += 1
         if c['kind'] == 'gen':
             a, t, f = run_gen(c); impl[c['cid']] = a; text += t; owner[c['cid']] = c
+            hist['gen:with_peer_of_same_flow'] += 1 if c.get('peer') else 0
         elif c['kind'] == 'sink':
             a, t, f = run_sink(c); impl.update(a); text += t
             for k in a: owner[k] = c
@@ -429,6 +439,7 @@ def run(ctx):
             pr = Pipe(c).run()
             f = pipe_oracle(c, pr)
             npk += len(pr.sent)
+            hist['port_puts_checked_against_tail_drop_rule'] += pr.nrule
             for k in c['chain']: hist['elem:' + k] += 1
             if c['fan']: hist['fan-out:' + c.get('fan_kind', 'flow')] += 1
         for x in f:
